@@ -219,7 +219,7 @@ def call_by_contract(it, c, fn, bound):
         t = it.truth(run_inv(it, cc, ns['self']))
         ctx.oblige(f'{tag}.pre/inv', t, where=where)
         ctx.assume(t)
-    need_old = bool(c.ensures) or any(True for _ in c.raises)
+    need_old = bool(c.ensures) or any(True for _ in c.raises) or bool(c.modifies)
     old = make_old(it, bound) if (need_old and not c.functional) or c.raises_need_old else None
     ns['old'] = old
     # exceptional outcomes
@@ -237,28 +237,80 @@ def call_by_contract(it, c, fn, bound):
     if c.functional:
         return eval_clause(it, c.result_fn, ns)
     # general: havoc the frame, fresh result, assume ensures
+    if c.is_init and cc is not None and cc.shape is not None and isinstance(ns.get('self'), SObj):
+        _obj_shape(cc.shape).havoc(ctx, ns['self'], 'new')   # the constructed object's fields
     havoc_frame(it, c, bound)
-    if c.returns is not None:
+    if c.result_fn is not None:
+        ns_old = dict(old.fields) if old is not None else dict(bound)
+        ns_old['old'] = old
+        result = eval_clause(it, c.result_fn, ns_old)
+    elif c.returns is not None:
         result = c.returns.fresh(ctx, f'ret_{fn.__name__}')
     else:
         result = None
     ns['result'] = result
     for name, efn in c.ensures:
         ctx.assume(it.truth(eval_clause(it, efn, ns)))
-    if cc is not None and cc.inv is not None and 'self' in ns:
+    if cc is not None and cc.inv is not None and 'self' in ns and c.check_inv:
         ctx.assume(it.truth(run_inv(it, cc, ns['self'])))
     return result
 
 
+def _obj_shape(shape):
+    from . import dsl
+    while isinstance(shape, dsl.Ref):
+        shape = shape._s()
+    return shape
+
+
 def havoc_frame(it, c, bound):
+    """Havoc every location named in `modifies`: 'param' (the whole object, by its shape) or
+    'param.field' (one field of an object parameter)."""
     for pname in c.modifies:
-        obj = bound[pname.split('.')[0]]
-        for part in pname.split('.')[1:]:
-            obj = it.getattr(obj, part)
-        shape = c.shape_of(pname, it.registry)
+        parts = pname.split('.')
+        root = bound[parts[0]]
+        shape = _obj_shape(c.shape_of(parts[0], it.registry))
         if shape is None:
             raise EngineError(f'{c.qualname}: no shape to havoc {pname}')
-        shape.havoc(it.ctx, obj, f'h_{pname}')
+        if len(parts) == 1:
+            shape.havoc(it.ctx, root, f'h_{pname}')
+            continue
+        if len(parts) != 2 or not isinstance(root, SObj):
+            raise EngineError(f'{c.qualname}: unsupported frame path {pname}')
+        fshape = shape.fields.get(parts[1])
+        if fshape is None:
+            raise EngineError(f'{c.qualname}: no shape for {pname}')
+        cur = root.fields.get(parts[1])
+        if isinstance(cur, Mut) and not (isinstance(cur, SObj) and cur.frozen):
+            fshape.havoc(it.ctx, cur, f'h_{pname}')
+        else:
+            root.fields[parts[1]] = fshape.fresh(it.ctx, f'h_{pname}')
+
+
+def frame_condition(it, c, bound, old):
+    """Everything reachable from the parameters that is NOT in `modifies` is unchanged."""
+    conj = []
+    whole = {m for m in c.modifies if '.' not in m}
+    byroot = {}
+    for m in c.modifies:
+        if '.' in m:
+            r, f = m.split('.', 1)
+            byroot.setdefault(r, set()).add(f)
+    for pname, v in bound.items():
+        if pname in whole or (c.is_init and pname == 'self'):
+            continue
+        ov = old.fields[pname]
+        if isinstance(v, SObj) and not v.frozen and pname in byroot and isinstance(ov, SObj):
+            for k in v.fields:
+                if k in byroot[pname]:
+                    continue
+                if k not in ov.fields:
+                    conj.append(False)
+                    continue
+                conj.append(deep_same(it, v.fields[k], ov.fields[k]))
+        elif isinstance(v, Mut):
+            conj.append(deep_same(it, v, ov))
+    return b_and(*conj)
 
 
 # ------------------------------------------------------------------------------------------------
@@ -347,6 +399,10 @@ def enum_by_value(it, cls, v):
 # intrinsics (pyvc.speclib)
 
 
+import os as _os
+_DEBUG_CONJ = bool(_os.environ.get('PYVC_DEBUG_CONJ'))
+
+
 def _call_pred(it, pred, x):
     return it.truth(call(it, pred, [x], {}))
 
@@ -367,6 +423,10 @@ def intrinsic(it, name, args, kwargs):
             return args[1] if it.ctx.decide(c) else args[2]
     if name in ('conj', 'disj'):
         ts = [it.truth(a) for a in args]
+        if name == 'conj' and _DEBUG_CONJ and any(t is False for t in ts):
+            import sys
+            print('CONJ-FALSE at', it.ctx.where, [i for i, t in enumerate(ts) if t is False],
+                  file=sys.stderr)
         return b_and(*ts) if name == 'conj' else b_or(*ts)
     if name in ('forall', 'exists', 'count'):
         xs, pred = args
@@ -407,6 +467,43 @@ def intrinsic(it, name, args, kwargs):
         return it.identical(args[0], None)
     if name == 'opt_eq':
         return it.eq(args[0], args[1])
+    if name in ('set_added', 'set_removed'):
+        new, old, x = args
+        new, old = it.unopt(new), it.unopt(old)
+        if not (isinstance(new, SCardSet) and isinstance(old, SCardSet) and is_card(x)):
+            raise EngineError(f'{name}: card sets only')
+        idx = V.card_index(x)
+        out = []
+        for i in range(52):
+            hit = (idx == i) if isinstance(idx, int) else mk_bool(idx == i)
+            want = b_or(old.guards[i], hit) if name == 'set_added' else \
+                b_and(old.guards[i], b_not(hit))
+            out.append(it.eq_bool(new.guards[i], want))
+        return b_and(*out)
+    if name == 'sets_disjoint':
+        out = []
+        args = [it.unopt(a) for a in args]
+        for i in range(52):
+            gs = [s_.guards[i] for s_ in args]
+            for a in range(len(gs)):
+                for b in range(a + 1, len(gs)):
+                    out.append(b_not(b_and(gs[a], gs[b])))
+        return b_and(*out)
+    if name == 'distinct':
+        out = []
+        for a in range(len(args)):
+            for b in range(a + 1, len(args)):
+                out.append(b_not(it.eq(args[a], args[b])))
+        return b_and(*out)
+    if name == 'set_ite':
+        c, a, b = args
+        c = it.truth(c)
+        if isinstance(c, bool):
+            return SCardSet((a if c else b).guards)
+        return SCardSet([b_ite(c, x, y) for x, y in zip(a.guards, b.guards)])
+    if name == 'new_object':
+        cls, fields = args
+        return SObj(cls, dict(fields.d) if isinstance(fields, SDict) else dict(fields))
     if name == 'opt_or':
         x, d = args
         if x is None:
